@@ -18,6 +18,31 @@ func (v *Vue) evaluateChildren(ctx VueContext, node *html.Node, depth int) ([]*h
 	return v.evaluate(ctx, childList, depth)
 }
 
+// admitOnce decides whether a v-once element is emitted at this point of the render. It
+// reports false when the element was emitted before. Otherwise it records the element as
+// seen and returns the node to evaluate in its place: an unmarked copy (same children),
+// so that the output nodes carry no v-once marker - a component whose root is a
+// <template> is evaluated a second time by evalInclude, which would otherwise take the
+// emitted element for a later instantiation and drop it.
+// On a v-for element the decision is made per iteration (evalFor evaluates each clone
+// without its v-for attribute), so the element is returned unchanged.
+func (ctx VueContext) admitOnce(node *html.Node) (*html.Node, bool) {
+	if helpers.HasAttr(node, "v-for") {
+		return node, true
+	}
+	id := helpers.GetAttr(node, "v-once-id")
+	if ctx.seen[id] {
+		return nil, false
+	}
+	ctx.seen[id] = true
+
+	unmarked := helpers.ShallowCloneWithAttrs(node)
+	unmarked.FirstChild, unmarked.LastChild = node.FirstChild, node.LastChild
+	helpers.RemoveAttr(unmarked, "v-once")
+	helpers.RemoveAttr(unmarked, "v-once-id")
+	return unmarked, true
+}
+
 func (v *Vue) evaluate(ctx VueContext, nodes []*html.Node, depth int) ([]*html.Node, error) {
 	var result []*html.Node
 
@@ -39,25 +64,13 @@ func (v *Vue) evaluate(ctx VueContext, nodes []*html.Node, depth int) ([]*html.N
 			tag := node.Data
 
 			// Check for v-once early - skip if already rendered.
-			// On a v-for element the check is made per iteration (evalFor
-			// evaluates each clone without its v-for attribute).
-			if helpers.HasAttr(node, "v-once") && !helpers.HasAttr(node, "v-for") {
-				vSeenID := helpers.GetAttr(node, "v-once-id")
-				if ctx.seen[vSeenID] {
+			if helpers.HasAttr(node, "v-once") {
+				admitted, ok := ctx.admitOnce(node)
+				if !ok {
 					// This v-once element has already been rendered, skip it
 					continue
 				}
-				// Mark this v-once element as rendered
-				ctx.seen[vSeenID] = true
-
-				// The element is emitted now. Evaluate an unmarked copy, so that the output
-				// nodes carry no v-once marker: a component whose root is a <template> is
-				// evaluated a second time by evalInclude, which would otherwise take the
-				// emitted element for a later instantiation and drop it.
-				node = helpers.ShallowCloneWithAttrs(node)
-				node.FirstChild, node.LastChild = nodes[i].FirstChild, nodes[i].LastChild
-				helpers.RemoveAttr(node, "v-once")
-				helpers.RemoveAttr(node, "v-once-id")
+				node = admitted
 			}
 
 			// Check for v-pre early - prevents all interpolation and directive processing
